@@ -31,7 +31,7 @@ func plansFor(thorough bool) []Plan {
 	if !thorough {
 		plans = append(plans,
 			Plan{Name: "sample-n234-access", Domain: "sample", Flavours: []string{"gnosis"}, NSet: []int{2, 3, 4}, Sample: 2500, Emit: true, Access: true, History: true},
-			Plan{Name: "sample-n34", Domain: "sample", Flavours: both, NSet: []int{3, 4}, Sample: 20000, Emit: true})
+			Plan{Name: "sample-n34", Domain: "sample", Flavours: both, NSet: []int{3, 4}, Sample: 20000, Emit: true, History: true})
 		return plans
 	}
 	// n = 3: complete enumeration on the bare functions, one TLC run per (flavour, threshold); they
@@ -45,7 +45,7 @@ func plansFor(thorough bool) []Plan {
 	}
 	plans = append(plans,
 		Plan{Name: "sample-n234-access", Domain: "sample", Flavours: []string{"gnosis"}, NSet: []int{2, 3, 4}, Sample: 40000, Emit: true, Access: true, History: true},
-		Plan{Name: "sample-n34", Domain: "sample", Flavours: both, NSet: []int{3, 4}, Sample: 150000, Emit: true})
+		Plan{Name: "sample-n34", Domain: "sample", Flavours: both, NSet: []int{3, 4}, Sample: 150000, Emit: true, History: true})
 	return plans
 }
 
@@ -62,7 +62,7 @@ func assumptions() []string {
 
 func universeOf(cs *Case, nU int) int {
 	h := fnv.New32a()
-	h.Write([]byte(cs.Key()))
+	h.Write([]byte(cs.CKey()))
 	return int(h.Sum32() % uint32(nU))
 }
 
@@ -187,7 +187,7 @@ type runner struct {
 
 func key64(cs *Case) uint64 {
 	h := fnv.New64a()
-	h.Write([]byte(cs.Key()))
+	h.Write([]byte(cs.CKey()))
 	return h.Sum64()
 }
 
@@ -372,8 +372,11 @@ func Check(c *core.Ctx) int {
 		for _, raw := range kf.Witness {
 			var cs Case
 			err := json.Unmarshal(raw, &cs)
-			if len(cs.Ann) == 0 {
+			if cs.Ann == nil {
 				cs.Ann = []string{"S"}
+			}
+			if cs.Key == "" {
+				cs.Key = "before"
 			}
 			if err == nil && cs.wellFormed() == nil {
 				witnessCases = append(witnessCases, cs)
@@ -489,7 +492,7 @@ func Check(c *core.Ctx) int {
 			"tlc_distinct_states": g.Distinct, "tlc_states_generated": g.States, "cases": g.NumCases, "tlc_wall_s": g.Wall,
 			"run_s": po.runDur.Seconds(), "validation_jvm_s": po.valDur.Seconds(), "plan_wall_s": po.wall.Seconds(), "trace_lines": po.lines})
 		for _, d := range po.drift {
-			fmt.Printf("DRIFT plan=%s target=%s case=%s observed=%v (not an outcome of the code-shaped spec)\n", po.plan.Name, d.Target, d.Line.C.Key(), d.Line.Obs)
+			fmt.Printf("DRIFT plan=%s target=%s case=%s observed=%v (not an outcome of the code-shaped spec)\n", po.plan.Name, d.Target, d.Line.C.CKey(), d.Line.Obs)
 		}
 		unmatched := po.findingCount - len(po.findings) // beyond the memory bound: cannot be matched, count as violations
 		violations += unmatched
@@ -502,7 +505,7 @@ func Check(c *core.Ctx) int {
 			if reported < 8 {
 				u := us[f.Line.U]
 				path := c.WriteReplay(fmt.Sprintf("%s-%d", po.plan.Name, reported), ReplayFile{Prop: c.Prop, Seed: c.Seed, Universe: f.Line.U, Finding: f, Concrete: u.Describe(&f.Line.C)})
-				c.Violation(path, fmt.Sprintf("monitor %s failed on target %s: case %s observed %v", f.Monitor, f.Target, f.Line.C.Key(), f.Line.Obs))
+				c.Violation(path, fmt.Sprintf("monitor %s failed on target %s: case %s observed %v", f.Monitor, f.Target, f.Line.C.CKey(), f.Line.Obs))
 				reported++
 			}
 		}
@@ -600,8 +603,11 @@ func Replay(c *core.Ctx) int {
 	if cs.Sigs == nil {
 		cs.Sigs = []Sig{}
 	}
-	if len(cs.Ann) == 0 {
+	if cs.Ann == nil {
 		cs.Ann = []string{"S"}
+	}
+	if cs.Key == "" {
+		cs.Key = "before"
 	}
 	if err := cs.wellFormed(); err != nil {
 		fmt.Println("INCONCLUSIVE: replay file:", err)
